@@ -72,9 +72,19 @@ def main():
             broken = [c for c, r in res.items() if r['rc'] not in (0, 1)]
             print('%-40s own=%s %-6s caught by: %s%s' % (seed, own, 'CAUGHT' if own in caught else 'MISSED', ' '.join(caught) or '-', ('  analysis-error: ' + ' '.join(broken)) if broken else ''))
             sys.stdout.flush()
+    path = os.path.join(VERIF, 'seeded', 'CATCH_MATRIX.json')
     if not a.only and a.checks == ALL and not a.dir:
-        with open(os.path.join(VERIF, 'seeded', 'CATCH_MATRIX.json'), 'w') as f:
+        with open(path, 'w') as f:
             json.dump(out, f, indent=1, sort_keys=True)
+            f.write('\n')
+    elif not a.dir and os.path.exists(path):
+        # a partial run refreshes exactly the cells it computed
+        old = json.load(open(path))
+        for name, res in out.items():
+            if 'error' not in res:
+                old.setdefault(name, {}).update(res)
+        with open(path, 'w') as f:
+            json.dump(old, f, indent=1, sort_keys=True)
             f.write('\n')
 
 
